@@ -6,9 +6,14 @@ ID = "C08"
 LEAN_MODULE = "Ctrmml.Properties.C08"
 THEOREMS = ["C08_delay_encoding", "C08_no_overflow", "C08_no_indeterminate_byte", "C08_eof_offset", "C08_stream_parses",
             "C08_sample_total_header", "C08_gd3_offset", "C08_loop_consistent", "C08_gd3_eleven_strings", "C08_clocks_declared",
-            "C08_pcm_stream_in_block"]
+            "C08_pcm_stream_in_block",
+            # GD3 text: the writer's UTF-8 decoder against the reader-side encoder
+            "C08_utf8_decode_encode", "C08_utf16_encode_decode", "C08_utf8_valid_tag", "C08_utf8_decoder_scalars", "C08_gd3_renders_tag",
+            # whole songs: Platform::vgm_export + MD_Driver
+            "C08_invalid_tag_range_error", "C08_md_export_hyps", "C08_full_partial", "C08_pcm_windows_are_samples",
+            "C08_full_for_reachable_banks", "C08_full_for_built_banks", "C08_pcm_offset_regression", "C08_example_pcm_bank", "C08_example_pcm_ops", "mdPokes_eq"]
 LEVEL = "proof"
-STREAM = "vgmw.ops+vgmsong"
+STREAM = "vgmw.ops+vgmsong+c08song"
 CHUNK = 40
 CASE_SECONDS = 30
 # realloc growth must be observable: ASan fills every fresh allocation completely with 0xbe
@@ -297,6 +302,134 @@ def pcm_song(rng, quick):
     return "\n".join(lines) + "\n" + body, samples
 
 
+
+# ---- whole-song exports answered by the model as well (stream c08song = the mdvgm request of C07 + files + song tags)
+def wav_bytes(data8, bits, rate):
+    """a canonical mono WAV; returns (file bytes, expected 8-bit unsigned sample bytes)"""
+    if bits == 8:
+        payload = bytes(data8)
+    else:
+        payload = b"".join(bytes([(37 * i) & 0xff, d ^ 0x80]) for i, d in enumerate(data8))
+    fmt = struct.pack("<HHIIHH", 1, 1, rate, rate * bits // 8, bits // 8, bits)
+    body = b"WAVE" + b"fmt " + struct.pack("<I", len(fmt)) + fmt + b"data" + struct.pack("<I", len(payload)) + payload
+    if len(payload) % 2:
+        body += b"\0"
+    return b"RIFF" + struct.pack("<I", len(body)) + body, bytes(data8)
+
+
+SONG_TAG_KEYS = ["#title", "#titlej", "#game", "#gamej", "#system", "#systemj", "#composer", "#composerj", "#vgmdate", "#programmer",
+                 "#comment", "#author", "#programer"]
+BAD_UTF8 = ["80", "ff", "c080", "41c328", "eda080", "f4908080", "f880808080", "e0808f", "f08080af", "c3", "e381", "f09f98"]
+
+
+def song_tag_tokens(rng, bad=False):
+    toks, tg = [], set()
+    for k in SONG_TAG_KEYS:
+        if rng.random() < 0.35:
+            kind = rng.choice(list(CHARS))
+            n = rng.choice([1, 2, 10, 100, 255, 256, 257, 300]) if rng.random() < 0.3 else rng.randrange(1, 30)
+            # Song::set_tag deletes trailing white space; an empty #vgmdate / #comment would bring in the wall clock / build stamp
+            b = (CHARS[kind] * n).encode() if rng.random() < 0.5 else ("".join(
+                rng.choice(list(CHARS.values()) + list("Song Title 01")) for _ in range(min(n, 40))).strip() or "x").encode()
+            toks.append("%s=%s" % (k, b.hex() or "-"))
+            tg |= tag_tags([b.hex()]) if b else {"tag-empty"}
+    if bad:
+        k = rng.choice(SONG_TAG_KEYS[:11])
+        toks = [t for t in toks if not t.startswith(k + "=")] + ["%s=%s" % (k, rng.choice(BAD_UTF8))]
+        tg.add("tag-invalid-utf8")
+    return toks, tg
+
+
+def model_song(rng, quick, pcm=True, offset=False):
+    """an IR song (C07's generator) with PCM instruments added; returns (request, tags)"""
+    from checks import c07
+    from vlib import songgen
+    c07.T = songgen.event_types()
+    T = c07.T
+    while True:
+        song, ins, tags = c07.random_song(rng, "quick")
+        if max([c07.ticks_of(song, c) for c in song if c < 16] or [0]) <= (150 if quick else 400):
+            break
+    toks, expect = [], []
+    tags = set(tags)
+    if pcm:
+        npcm = rng.choice([1, 1, 2, 3])
+        pool = []
+        for i in range(npcm):
+            n = rng.choice([1, 2, 3, 17, 64, 255, 256, 257] if quick else [1, 2, 3, 17, 64, 255, 256, 257, 1000, 4000])
+            data = [rng.randrange(256) for _ in range(n)] if not pool or rng.random() < 0.8 else list(rng.choice(pool))
+            n = len(data)
+            pool.append(data)
+            blob, exp = wav_bytes(data, rng.choice([8, 16]), rng.choice([8000, 11025, 17500]))
+            name = "s%d.wav" % i
+            toks.append("W%s=%s" % (name, blob.hex()))
+            words = ["pcm", name]
+            if rng.random() < 0.3:
+                words.append("rate=%d" % rng.choice([4000, 8000, 16000, 22050]))
+            if offset and i == npcm - 1 and n > 1:
+                k = rng.randrange(1, n)
+                words.append("offset=%d" % k)
+                exp = exp[k:]
+                tags.add("pcm-offset")
+            ins = ins + [(30 + i, words)]
+            expect.append(exp)
+        # a PCM channel: usually FM6 (track 5), sometimes any other channel kind
+        ch = rng.choice([5, 5, 5, 0, 3, 6, 9, 10])
+        body = []
+        for _ in range(rng.randrange(1, 8)):
+            r = rng.random()
+            if r < 0.3:
+                body.append((T["INS"], 30 + rng.randrange(npcm), 0, 0))
+            elif r < 0.45:
+                body.append((T["REST"], 0, 0, rng.randrange(1, 12)))
+            elif r < 0.5 and ins:
+                body.append((T["INS"], rng.choice([i for i, _ in ins]), 0, 0))
+            else:
+                d = rng.randrange(1, 12)
+                on = rng.randrange(1, d + 1)
+                body.append((T["NOTE"], rng.randrange(20, 80), on, d - on))
+        pre = [(T["INS"], 30, 0, 0), (T["NOTE"], 40, 3, 1)]
+        if ch in song and rng.random() < 0.5:
+            song[ch] = pre + body + song[ch]
+        else:
+            song[ch] = pre + body + ([(T["SEGNO"], 0, 0, 0), (T["NOTE"], 45, 4, 2)] if rng.random() < 0.3 and "all-loop" not in tags else [])
+        tags |= {"pcm-song", "pcm-stream", "pcm-ch%d" % ch}
+    req = c07.render(song, ins).replace("mdvgm ", "c08song ", 1)
+    if req == "mdvgm":
+        req = "c08song"
+    ttoks, ttags = song_tag_tokens(rng, bad=rng.random() < 0.08)
+    req = " ".join([req] + toks + ttoks + ["X" + e.hex() for e in expect])
+    return req, sorted(tags | ttags | {"song", "song-model"})
+
+
+_W16 = wav_bytes(list(range(16, 32)), 8, 8000)
+_W5 = wav_bytes([200, 201, 202, 203, 204], 16, 11025)
+SONG_MODEL_CORPUS = [
+    # one PCM instrument on FM6: data block, DAC enable + stream start at key-on, DAC disable + stop at key-off
+    ("c08song T5:17.30.0.0,2.40.6.2,1.0.0.4,2.41.3.3 @30=pcm,a.wav Wa.wav=%s X%s" % (_W16[0].hex(), _W16[1].hex()), ("pcm-song", "pcm-stream")),
+    # two instruments (the second with a rate override), used from an FM and a PSG channel, with a loop point
+    ("c08song T0:17.30.0.0,2.40.6.2,17.31.0.0,7.0.0.0,2.41.3.3,1.0.0.2 T6:17.31.0.0,2.30.4.4 @30=pcm,a.wav @31=pcm,b.wav,rate=16000 Wa.wav=%s Wb.wav=%s X%s X%s"
+     % (_W16[0].hex(), _W5[0].hex(), _W16[1].hex(), _W5[1].hex()), ("pcm-song", "pcm-stream", "loop")),
+    # the same sample twice (shared data, two headers)
+    ("c08song T5:17.30.0.0,2.40.2.2,17.31.0.0,2.41.2.2 @30=pcm,a.wav @31=pcm,a.wav,rate=4000 Wa.wav=%s X%s" % (_W16[0].hex(), _W16[1].hex()), ("pcm-song", "pcm-stream")),
+    # regression for D11 (fixed in e0c1e8f): offset= on a freshly placed sample; the window ran past the data block
+    ("c08song T5:17.30.0.0,2.40.6.2 @30=pcm,a.wav,offset=4 Wa.wav=%s X%s" % (_W16[0].hex(), _W16[1][4:].hex()), ("pcm-song", "pcm-offset")),
+    # tags through get_tags: fallbacks #author -> author, #programer -> creator, author -> creator
+    ("c08song T0:2.40.6.2 #title=41e38182 #composer=c3a9 #game=f09f9880", ("tags",)),
+    ("c08song T0:2.40.6.2 #author=%s #programer=%s" % (hx("au"), hx("pr")), ("tags", "tag-fallback")),
+    ("c08song T0:2.40.6.2 #author=%s" % hx("only author"), ("tags", "tag-fallback")),
+    ("c08song T0:2.40.6.2 #title=%s #comment=%s" % ("61" * 300, "e38182" * 257), ("tags", "tag-units>256")),
+    # a tag that is not valid UTF-8 is an InputError of vgm_export (repository fix fab3739)
+    ("c08song T0:2.40.6.2 #title=ff", ("tags", "tag-invalid-utf8")),
+    ("c08song T0:2.40.6.2 #comment=41c328", ("tags", "tag-invalid-utf8")),
+    ("c08song T0:2.40.6.2 #vgmdate=f4908080", ("tags", "tag-invalid-utf8")),
+    # accepted leniently by the decoder: incomplete last sequence, encoded surrogate
+    ("c08song T0:2.40.6.2 #title=41e381", ("tags", "tag-invalid-utf8")),
+    ("c08song T0:2.40.6.2 #title=eda080", ("tags", "tag-invalid-utf8")),
+    # missing sample file
+    ("c08song T5:17.30.0.0,2.40.6.2 @30=pcm,zz.wav", ("pcm-song",)),
+]
+
 def cases(rng, tier):
     a = initial_alloc()
     for r, tg in CORPUS:
@@ -360,6 +493,11 @@ def cases(rng, tier):
         for tf in ([["-"] * 11, ["-"] * 9 + [hx("prog only"), "-"], [hx("Title"), hx("タイトル"), hx("Game"), "-", hx("Mega Drive"), "-", hx("me"), "-", hx("2020"), hx("prog"), hx("note")]] +
                    ([] if quick else [["300*61"] + ["-"] * 10, ["256*e38182"] * 11])):
             yield Case(song_req(flag, tf, mml), sorted({"song", "loop" if flag == "L" else "no-loop"} | tag_tags(tf)), "song")
+    # a tag line that is not valid UTF-8 reaches Platform::vgm_export: InputError, not a stray range_error
+    for bx in ["ff", "c080", "41c328", "f4908080"]:
+        f = ["-"] * 11
+        f[0] = bx
+        yield Case(song_req("N", f, "A o4l4 cdef\n"), ["song", "tag-invalid-utf8"], "song")
     for i in range(10 if quick else 60):
         mml, samples = pcm_song(rng, quick)
         fields = [x if "*" not in x or int(x.split("*")[0]) < 300 else "-" for x in rand_tag_fields(rng)]
@@ -380,6 +518,19 @@ def cases(rng, tier):
         mml = body + " ".join(parts) + "\n" + ("G o3 l4 " + " ".join(rng.choice(notes) for _ in range(k // 2 + 1)) + "\n" if rng.random() < 0.5 else "")
         fields = [x if "*" not in x or int(x.split("*")[0]) < 300 else "-" for x in rand_tag_fields(rng)]
         yield Case(song_req(("L" if lp is not None else "N") if "\nG" not in mml else "?", fields, mml), sorted({"song", "loop" if lp is not None else "no-loop"} | tag_tags(fields)), "song")
+
+    # ---- whole-song exports with a model answer (byte-exact) and the C08 judge
+    for r, tg in SONG_MODEL_CORPUS:
+        yield Case(r, ("corpus", "song", "song-model") + tuple(tg), "song-model")
+    for bx in BAD_UTF8:
+        for k in ("#title", "#composerj", "#comment"):
+            yield Case("c08song T0:2.40.6.2 T6:2.45.3.3 %s=%s" % (k, bx), ["song", "song-model", "tags", "tag-invalid-utf8"], "song-model")
+    for i in range(120 if quick else 1200):
+        r, tg = model_song(rng, quick, pcm=(i % 4 != 3), offset=False)
+        yield Case(r, tg, "song-model")
+    for i in range(6 if quick else 40):
+        r, tg = model_song(rng, quick, pcm=True, offset=True)
+        yield Case(r, tg, "song-model")
 
 
 def normalize(x):
@@ -423,18 +574,26 @@ RULE = ("operation sequences on VGM_Writer (writes of every command class write(
         "{0,1,16,17,65534,65535,65536,...,200*65535+16} and random, set_loop at every position incl. sample 0, data blocks, DAC stream "
         "ops, stop, write_tag) with the log end aimed at -6000..+50 bytes around every growth step initial_buffer_alloc*2^k (k<2 quick, k<4 "
         "thorough) and tags empty/ASCII/2-,3-,4-byte UTF-8 of 0..1000 characters; invalid UTF-8 and protocol misuse; whole-song exports of "
-        "small MML songs. non-trivial = has any tag (every generated case); distinct by request text")
-EXPLANATION = ("theorems over Model/Vgm (writer state machine over Option-UInt8 cells) against Spec/VgmParse (VGM 1.61 reader); the model is "
-               "tied to vgm.cpp by running both on the generated operation sequences under ASan with every fresh heap byte filled with 0xbe "
-               "and diffing the complete files; the spec oracle (parser, header checks, GD3 reader, UTF-16->UTF-8 re-encoding of the strings, "
-               "expected command list derived from the operations) judges the implementation's bytes, also for whole-song exports")
-ASSUMPTIONS = ["delays are integers below 2^31 samples per flush (vgm_export caps a song at 3600 s = 158 760 000 samples)",
-               "files shorter than 2 GiB (uint32_t buffer_alloc doubling and dbsize+100 do not wrap)",
+        "small MML songs (incl. tag lines that are not valid UTF-8); whole-song exports of IR songs answered by the model too (stream "
+        "c08song: C07's song generator plus 1..3 PCM instruments of 1..4000 samples from generated 8/16-bit WAV files, shared sample data, "
+        "rate=/offset= overrides, PCM notes on FM, PSG, noise and dummy channels, loop points, random #title/#composer/#author/#programer/... "
+        "tags incl. the get_tags fallbacks and invalid UTF-8). non-trivial = has any tag (every generated case); distinct by request text")
+EXPLANATION = ("theorems over Model/Vgm (writer state machine over Option-UInt8 cells) and Model/MdDriver (vgm_export + MD_Driver incl. PCM "
+               "instruments in pcm_mode 0) against Spec/VgmParse (VGM 1.61 reader, GD3 text as Unicode scalar values); the models are tied to "
+               "vgm.cpp / song.cpp / md.cpp by running both on the generated operation sequences and whole songs under ASan with every fresh "
+               "heap byte filled with 0xbe and diffing the complete files; the spec oracle (parser, header checks, GD3 reader, UTF-16->UTF-8 "
+               "re-encoding of the strings, expected command list derived from the operations, stream windows against the instruments' sample "
+               "bytes) judges the implementation's bytes, also for whole-song exports")
+ASSUMPTIONS = ["delays are integers below 2^31 samples per flush (proved for whole songs: the export loop hands over less than 3600 s + one update)",
+               "files shorter than 2 GiB (uint32_t buffer_alloc doubling and dbsize+100 do not wrap); the offset clauses assume < 4 GiB",
                "tag strings longer than 256 UTF-16 code units are truncated to 256 units by design (DESIGN C08); a surrogate pair may be cut",
                "realloc never fails (bad_alloc is not modelled)",
-               "date and notes defaults (wall clock, build stamp) are inputs of the model; the harness canonicalises them by shape"]
-TECHNIQUE = "Lean 4 proof (invariant over writer operation sequences, parser prefix lemmas) + differential correspondence model<->vgm.cpp + spec oracle on exported bytes"
-LEVEL_TEXT = ("Machine-checked theorems over a Lean model of vgm.cpp, for ALL exporter operation sequences (caller header pokes; any PSG/YM2612 "
+               "date and notes defaults (wall clock, build stamp) are inputs of the model; the harness canonicalises them by shape",
+               "whole songs: the plain playback subset of Model/MdDriver plus PCM instruments in pcm_mode 0 (no PLATFORM events, portamento, "
+               "pitch envelope, macro track, FM3, software PCM mixing), songs that end or loop within max_seconds (otherwise the model answers "
+               "tooLong), WAV files below 1 GiB (the bound of C14's bank theorems; then the allocator invariant is proved for every bank read_song builds)"]
+TECHNIQUE = "Lean 4 proof (invariant over writer operation sequences, parser prefix lemmas, kind/port invariant over the MD driver model, UTF-8/UTF-16 codec inversion) + differential correspondence model<->vgm.cpp and model<->whole-song export + spec oracle on exported bytes"
+LEVEL_TEXT = ("Machine-checked theorems, two layers. (1) Over a Lean model of vgm.cpp, for ALL exporter operation sequences (caller header pokes; any PSG/YM2612 "
               "writes, delays, loop points anywhere incl. sample 0, stream data blocks, DAC stream setup/start/stop; stop; write_tag with any "
               "decodable tags; get_buffer): no store leaves the allocation (for every op sequence whatsoever); the export always returns a buffer "
               "with no indeterminate cell; magic and EOF offset exact; the VGM 1.61 reader of Spec/VgmParse consumes the stream from the data "
@@ -442,9 +601,21 @@ LEVEL_TEXT = ("Machine-checked theorems over a Lean model of vgm.cpp, for ALL ex
               "offset addresses the byte after the end marker; loop offset is a command boundary with exactly D samples before it and header "
               "0x20 = total - D (both fields zero without loop point); the GD3 block is exact and splits into exactly eleven terminated UTF-16 "
               "strings = the decoded tags cut at 256 units; declared clocks survive into the final header for every chip command; every stream "
-              "start addresses bytes of the type-0 data blocks written before it.")
-LEVEL_NOTE = ("Trusted: Lean kernel, the hand-written model Model/Vgm.lean (agreement with vgm.cpp by differential testing under ASan with "
-              "every fresh heap byte filled, zero differences), Spec/VgmParse.lean, integer delays < 2^31, file < 4 GiB for the 32-bit offset "
-              "clauses, g++/ASan/UBSan and the harness. The GD3 strings are tied to the tags through the model's UTF-8 decoder; that it inverts "
-              "the reader-side encoder, and the clock / PCM clauses at song level (MD_Driver passes the right pokes and sample windows), rest on "
-              "the spec oracle applied to whole-song exports (incl. PCM instruments), not on a theorem.")
+              "start addresses bytes of the type-0 data blocks written before it. (2) C08_full_partial: for EVERY song, instrument data and tag map, over the model of "
+              "Platform::vgm_export + MD_Driver + get_tags (Model/MdDriver, incl. PCM instruments): the operation sequence the exporter performs "
+              "satisfies the side conditions of layer 1 (C08_md_export_hyps: MD pokes declare both clocks, writes go only to SN76489 and YM2612 "
+              "ports 0/1, one type-0 data block = used wave rom, stream starts = windows of PCM instruments' sample headers, delays < 2^31), so "
+              "every returned file is WellFormed (header, stream, totals, loop, GD3 offset, clocks, PCM windows, eleven strings), the outcome is a "
+              "file iff every tag decodes and InputError otherwise (never a writer fault), the stream windows are exactly the sample windows of "
+              "the wave rom (C08_pcm_windows_are_samples), and each GD3 string renders its tag (UTF-16 -> UTF-8 gives back the tag, or a 256-unit "
+              "prefix) for every well-formed UTF-8 tag. GD3 text: the writer's decoder inverts the reader-side encoder on every list of 16-bit "
+              "units; on every accepted byte string it yields the UTF-16 forms of the encoded code points (C08_utf8_*).")
+LEVEL_NOTE = ("Trusted: Lean kernel, the hand-written models Model/Vgm.lean, Model/MdDriver.lean (+ PlayerCh, Wave) (agreement with vgm.cpp, song.cpp, md.cpp by "
+              "differential testing under ASan with every fresh heap byte filled, zero differences, on operation sequences and on whole songs "
+              "incl. PCM instruments and tags), Spec/VgmParse.lean, file < 4 GiB for the 32-bit offset clauses, g++/ASan/UBSan and the harness. "
+              "C08_full_for_built_banks discharges the wave-bank hypothesis of C08_full_partial for every bank read_song builds from WAV files below 1 GiB (any rate=/offset= "
+              "arguments; D11 was repaired in e0c1e8f, C08_pcm_offset_regression). Still hypotheses (C08_full_statement is kept in the property file): the driver part "
+              "completes (no player error, within max_seconds), WAV files < 1 GiB, exported file < 4 GiB, the song stays in the "
+              "modelled subset (no platform commands / pitch envelopes / macro tracks / pcm_mode 2,3), MDSDRV_Data::read_song is represented by "
+              "its result (instrument table + wave bank); MML-level songs outside the subset are decided per case by the spec oracle on the "
+              "real bytes (stream vgmsong).")
